@@ -16,6 +16,7 @@ NODE_KINDS = ('dict', 'list', 'tuple')
 LEAF_KINDS = ('int', 'str', 'arr')
 # first child of a dict is stored under 'a', the second under the int key 1
 DICT_KEYS = ('a', 1, 'c')
+RESERVED_LOOKALIKE_KEYS = ('SELF', 'SKIP', 'c')
 
 
 def specs(depth, max_children=2, leaf_kinds=LEAF_KINDS, node_kinds=NODE_KINDS,
@@ -82,6 +83,9 @@ def build(spec, counter=None):
   vals = [build(c, counter) for c in children]
   if kind == 'dict':
     return dict(zip(DICT_KEYS, vals))
+  if kind == 'rdict':
+    # a mapping whose keys are plain strings spelled like the reserved markers
+    return dict(zip(RESERVED_LOOKALIKE_KEYS, vals))
   if kind == 'list':
     return vals
   return tuple(vals)
@@ -90,5 +94,18 @@ def build(spec, counter=None):
 def show(spec):
   if isinstance(spec, str):
     return spec[0]
-  o, c = {'dict': '{}', 'list': '[]', 'tuple': '()'}[spec[0]]
+  o, c = {'dict': '{}', 'list': '[]', 'tuple': '()', 'rdict': '{}'}[spec[0]]
   return o + ','.join(show(x) for x in spec[1]) + c
+
+
+def with_lookalike_keys(spec):
+  """The same tree with every dict keyed by 'SELF' / 'SKIP' (plain strings)."""
+  if isinstance(spec, str):
+    return spec
+  kind = 'rdict' if spec[0] == 'dict' else spec[0]
+  return (kind, tuple(with_lookalike_keys(c) for c in spec[1]))
+
+
+def has_dict(spec):
+  return not isinstance(spec, str) and (
+      spec[0] in ('dict', 'rdict') or any(has_dict(c) for c in spec[1]))
